@@ -752,7 +752,8 @@ class electrical_signal():
         if self.noise is None and other.noise is None:
             return self.__class__(self.signal + other.signal, dtype=dtype)
         elif self.noise is None:
-            return self.__class__(self.signal + other.signal, other.noise, dtype=dtype)
+            signal = self.signal + other.signal
+            return self.__class__(signal, np.broadcast_to(other.noise, signal.shape), dtype=dtype)
         elif other.noise is None:
             return self.__class__(self.signal + other.signal, self.noise, dtype=dtype)
         return self.__class__(self.signal + other.signal, self.noise + other.noise, dtype=dtype)
@@ -784,7 +785,8 @@ class electrical_signal():
         if self.noise is None and other.noise is None:
             return self.__class__(self.signal - other.signal, dtype=dtype)
         elif self.noise is None:
-            return self.__class__(self.signal - other.signal, -other.noise, dtype=dtype)
+            signal = self.signal - other.signal
+            return self.__class__(signal, np.broadcast_to(-other.noise, signal.shape), dtype=dtype)
         elif other.noise is None:
             return self.__class__(self.signal - other.signal, self.noise, dtype=dtype)
         return self.__class__(self.signal - other.signal, self.noise - other.noise, dtype=dtype)
@@ -801,7 +803,8 @@ class electrical_signal():
         if self.noise is None and other.noise is None:
             return self.__class__(-self.signal + other.signal, dtype=dtype)
         elif self.noise is None:
-            return self.__class__(-self.signal + other.signal, other.noise, dtype=dtype)
+            signal = -self.signal + other.signal
+            return self.__class__(signal, np.broadcast_to(other.noise, signal.shape), dtype=dtype)
         elif other.noise is None:
             return self.__class__(-self.signal + other.signal, -self.noise, dtype=dtype)
         return self.__class__(-self.signal + other.signal, -self.noise + other.noise, dtype=dtype)
@@ -830,7 +833,8 @@ class electrical_signal():
         if self.noise is None and other.noise is None:
             return self.__class__(self.signal * other.signal, dtype=dtype)
         elif self.noise is None:
-            return self.__class__(self.signal * other.signal, other.noise, dtype=dtype)
+            signal = self.signal * other.signal
+            return self.__class__(signal, np.broadcast_to(other.noise, signal.shape), dtype=dtype)
         elif other.noise is None:
             return self.__class__(self.signal * other.signal, self.noise, dtype=dtype)
         return self.__class__(self.signal * other.signal, self.noise * other.noise, dtype=dtype)
